@@ -39,6 +39,8 @@ pub struct Ctx {
     pub held: Option<rusqlite::Connection>,
     /// a versions row whose payload column was set to NULL for the next operation (id text, old blob)
     pub rowfault: Option<(String, Vec<u8>)>,
+    /// a trigger that makes one kind of statement fail, armed for the next operation only
+    pub sqlfault: bool,
     /// further server instances on the same data directory (SQLite): number -> (server, store)
     pub insts: HashMap<u32, (Server, Arc<LogStore>)>,
     pub cur_inst: u32,
@@ -70,6 +72,7 @@ impl Ctx {
             keep_dir: std::env::var("TSS_KEEP_DIR").ok().map(std::path::PathBuf::from),
             held: None,
             rowfault: None,
+            sqlfault: false,
             insts: HashMap::new(),
             cur_inst: 0,
         };
@@ -799,6 +802,35 @@ impl Ctx {
                 self.emit(format!("fault {spec}"), "faultset".into());
                 return;
             }
+            ["sqlfault", table, stmt, k] => {
+                // a statement-level failure INSIDE one storage call: a trigger raises on the next
+                // INSERT / UPDATE of the given table (for the next operation only).  The model is told
+                // that storage call K of that operation fails without effect.  SQLite only.
+                let path = self.data_dir().join("taskchampion-sync-server.sqlite3");
+                let con = rusqlite::Connection::open(&path).expect("sqlfault open");
+                con.execute_batch(&format!(
+                    "CREATE TRIGGER IF NOT EXISTS verif_fault BEFORE {stmt} ON {table} BEGIN SELECT RAISE(ABORT, 'injected statement fault'); END;"
+                )).expect("sqlfault trigger");
+                self.sqlfault = true;
+                self.emit(format!("fault {k}:before"), "faultset".into());
+                return;
+            }
+            ["lockbegin", table, stmt] => {
+                // another connection holds the write lock while the next operation asks for its
+                // transaction, and lets go the moment that call returns; in addition the first
+                // {stmt} on {table} fails (see sqlfault).  For the code as it stands the request fails
+                // at the begin (busy) — that is what the model is told.
+                let path = self.data_dir().join("taskchampion-sync-server.sqlite3");
+                let con = rusqlite::Connection::open(&path).expect("lockbegin open");
+                con.execute_batch(&format!(
+                    "CREATE TRIGGER IF NOT EXISTS verif_fault BEFORE {stmt} ON {table} BEGIN SELECT RAISE(ABORT, 'injected statement fault'); END;"
+                )).expect("lockbegin trigger");
+                self.sqlfault = true;
+                con.execute_batch("BEGIN IMMEDIATE").expect("lockbegin lock");
+                *self.store.as_ref().unwrap().lock_until_begin.lock().unwrap() = Some(con);
+                self.emit("fault 0:before".to_string(), "faultset".into());
+                return;
+            }
             ["rowfault", spec, k] => {
                 // damage the stored row of one version (payload column NULL: the row can no longer be
                 // decoded) for the NEXT operation only; the model is told that storage call K of that
@@ -833,6 +865,19 @@ impl Ctx {
 
     /// a fault plan applies to one operation; report how many faults actually fired
     pub fn after_op(&mut self) {
+        if self.sqlfault {
+            self.sqlfault = false;
+            if let Some(st) = self.store.as_ref() {
+                if let Some(c) = st.lock_until_begin.lock().unwrap().take() {
+                    let _ = c.execute_batch("ROLLBACK");
+                }
+            }
+            let path = self.data_dir().join("taskchampion-sync-server.sqlite3");
+            let con = rusqlite::Connection::open(&path).expect("sqlfault open");
+            con.execute_batch("DROP TRIGGER IF EXISTS verif_fault").expect("sqlfault drop");
+            self.emit("mark fired 1".to_string(), "mark".into());
+            return;
+        }
         if let Some((idt, old)) = self.rowfault.take() {
             let path = self.data_dir().join("taskchampion-sync-server.sqlite3");
             let con = rusqlite::Connection::open(&path).expect("rowfault open");
